@@ -29,6 +29,7 @@ DRIVERS = {
     'C10': ('replayers.gridw', dict(prop='C10')),
     'C11': ('replayers.gridw', dict(prop='C11')),
     'C12': ('replayers.envw', dict(prop='C12')),
+    'C19': ('replayers.tagsw', dict(prop='C19')),
 }
 
 
@@ -41,6 +42,9 @@ def load_contracts():
     cc.PositionComponent = E.PositionComponent
     import contracts.environments as ce
     ce.PositionComponent = E.PositionComponent
+    import contracts.tags as ct
+    import ECAgent.Tags as T
+    ct._module_library = T._module_library
     return REG
 
 
